@@ -104,9 +104,15 @@ Proof. reflexivity. Qed.
 
 (* ---- the conversion byte after parseFmtTypes' rewriting ---- *)
 Definition go_conv_byte (c : conv) : Z :=
-  match c with Cd | Ci | Cu => 100 | Co => 111 | Cx => 120 | CX => 88 | Cc | Cs => 115 end.
+  match c with
+  | Cd | Ci | Cu => 100 | Co => 111 | Cx => 120 | CX => 88 | Cc | Cs => 115
+  | Ce => 101 | CE => 69 | Cf => 102 | Cg => 103 | CG => 71
+  end.
 Definition conv_ty (c : conv) : ty :=
-  match c with Cd | Ci => TyD | Co | Cu | Cx | CX => TyU | Cc => TyC | Cs => TyS end.
+  match c with
+  | Cd | Ci => TyD | Co | Cu | Cx | CX => TyU | Cc => TyC | Cs => TyS
+  | Ce | CE | Cf | Cg | CG => TyF
+  end.
 
 Lemma verb_info_conv c : verb_info (conv_byte c) = Some (go_conv_byte c, conv_ty c).
 Proof. destruct c; reflexivity. Qed.
@@ -118,58 +124,7 @@ Definition tail_of (d : dir) (verb : Z) : bytes :=
 Lemma render_tail d : render d = 37 :: tail_of d (conv_byte (d_conv d)).
 Proof. reflexivity. Qed.
 
-(* ---- parseFmtTypes on pre ++ directive ++ post ---- *)
 Definition no_pct (s : bytes) : bool := forallb (fun c => negb (c =? 37)) s.
-
-Lemma pft_lit s : no_pct s = true -> pft PLit s = Ok (s, []).
-Proof.
-  induction s as [|c t IH]; intros H; [reflexivity|].
-  cbn [no_pct forallb] in H. apply andb_true_iff in H as [Hc Ht]. apply negb_true_iff in Hc.
-  cbn [pft]. rewrite Hc, (IH Ht). reflexivity.
-Qed.
-
-Lemma pft_lit_app pre s : no_pct pre = true ->
-  pft PLit (pre ++ s) = match pft PLit s with Ok (o, ts) => Ok (pre ++ o, ts) | e => e end.
-Proof.
-  induction pre as [|c t IH]; intros H.
-  - cbn [app]. destruct (pft PLit s) as [[o ts]| | |]; reflexivity.
-  - cbn [no_pct forallb] in H. apply andb_true_iff in H as [Hc Ht]. apply negb_true_iff in Hc.
-    cbn [app pft]. rewrite Hc, (IH Ht). destruct (pft PLit s) as [[o ts]| | |]; reflexivity.
-Qed.
-
-Definition star_tys (run : bytes) : list ty :=
-  List.map (fun _ => TyD) (List.filter (fun c => c =? 42) run).
-
-Lemma pft_run run : forall c c' t rest, forallb is_fmtch run = true -> verb_info c = Some (c', t) ->
-  is_fmtch c = false ->
-  pft PFlags (run ++ c :: rest)
-  = match pft PLit rest with Ok (o, ts) => Ok (run ++ c' :: o, star_tys run ++ t :: ts) | e => e end.
-Proof.
-  induction run as [|x r IH]; intros c c' t rest H Hv Hc.
-  - cbn [app pft star_tys filter map]. rewrite Hc, Hv. unfold cons_out.
-    destruct (pft PLit rest) as [[o ts]| | |]; reflexivity.
-  - cbn [forallb] in H. apply andb_true_iff in H as [Hx Hr].
-    cbn [app pft]. rewrite Hx. rewrite (IH c c' t rest Hr Hv Hc). unfold cons_out, star_tys.
-    cbn [filter]. destruct (pft PLit rest) as [[o ts]| | |]; try reflexivity.
-    destruct (x =? 42); reflexivity.
-Qed.
-
-Lemma pft_pct_run run c c' t rest : forallb is_fmtch run = true -> verb_info c = Some (c', t) ->
-  is_fmtch c = false ->
-  pft PPct (run ++ c :: rest)
-  = match pft PLit rest with Ok (o, ts) => Ok (run ++ c' :: o, star_tys run ++ t :: ts) | e => e end.
-Proof.
-  intros H Hv Hc. destruct run as [|x r].
-  - cbn [app pft]. assert (c =? 37 = false) as ->.
-    { destruct (c =? 37) eqn:E; [|reflexivity]. apply Z.eqb_eq in E. subst c. discriminate. }
-    rewrite Hc, Hv. unfold cons_out, star_tys. cbn [filter map app].
-    destruct (pft PLit rest) as [[o ts]| | |]; reflexivity.
-  - pose proof H as Hall. cbn [forallb] in H. apply andb_true_iff in H as [Hx Hr].
-    cbn [app pft]. assert (x =? 37 = false) as ->.
-    { destruct (x =? 37) eqn:E; [|reflexivity]. apply Z.eqb_eq in E. subst x. discriminate. }
-    rewrite Hx. rewrite (pft_run r c c' t rest Hr Hv Hc). unfold cons_out, star_tys. cbn [filter].
-    destruct (pft PLit rest) as [[o ts]| | |]; try reflexivity. destruct (x =? 42); reflexivity.
-Qed.
 
 (* ---- pattern matches on a literal byte, for a byte known to differ ---- *)
 Ltac lit_case c H :=
